@@ -37,6 +37,8 @@ func syncPlan(prop, tier string, seed uint64) (runs []syncRun, crashIsViolation 
 			runs = append(runs, syncRun{"2 replicas, equal stamps, two-author commits", eq, 5, 60 * time.Second})
 			x := syncw.Params{Replicas: 2, Oracles: "c01", Seed: seed, Peers: true, Split: true, NoRemote: true, OneEdit: true}
 			runs = append(runs, syncRun{"2 replicas exchanging directly (peer remotes, split fetch/merge): cross merges", x, 7, 60 * time.Second})
+			p3 := syncw.Params{Replicas: 3, Oracles: "c01", Seed: seed, Peers: true, NoRemote: true, OneEdit: true, Closure: true}
+			runs = append(runs, syncRun{"3 replicas exchanging directly (peer remotes, atomic pull): a replica merging other people's heads", p3, 5, 75 * time.Second})
 			t3 := syncw.Params{Replicas: 3, Oracles: "c01", Seed: seed, OneEdit: true, NewBug: true}
 			runs = append(runs, syncRun{"3 replicas, a second bug may be created", t3, 4, 60 * time.Second})
 		} else {
